@@ -261,6 +261,8 @@ class RepoClass:
         self.class_attrs = {}
         self.class_attr_nodes = {}
         self._bases = None
+        self.fields = []          # annotated field names in order (NamedTuple / dataclass style)
+        self.field_defaults = {}
 
     @property
     def key(self):
@@ -525,6 +527,7 @@ class Interp:
         self.loop_invariants = {}
         self.lineno = 0
         self.trace_calls = []
+        self.call_log = []            # (callee key, bound args, result) of modular calls on the current path
 
     # -- modules -----------------------------------------------------------
     def module(self, name):
@@ -623,8 +626,12 @@ class Interp:
                 for t in st.targets:
                     if isinstance(t, ast.Name):
                         c.class_attr_nodes[t.id] = st.value
-            elif isinstance(st, ast.AnnAssign) and st.value is not None and isinstance(st.target, ast.Name):
-                c.class_attr_nodes[st.target.id] = st.value
+            elif isinstance(st, ast.AnnAssign) and isinstance(st.target, ast.Name):
+                c.fields.append(st.target.id)
+                if st.value is not None:
+                    c.class_attr_nodes[st.target.id] = st.value
+                    c.field_defaults[st.target.id] = st.value
+        c.is_namedtuple = any(_dec_name(b) == "NamedTuple" for b in node.bases)
         return c
 
     def eval_in_module(self, module, node):
@@ -725,6 +732,24 @@ class Interp:
 
     def instantiate(self, cls, args, kwargs):
         obj = Obj(cls, {})
+        if getattr(cls, "is_namedtuple", False):
+            fields = list(cls.fields)
+            vals = dict(zip(fields, args))
+            for k, v in kwargs.items():
+                if k not in fields or k in vals:
+                    raise PyRaise(self.make_exc("TypeError", f"{cls.name}() got an unexpected/duplicate argument {k}"))
+                vals[k] = v
+            for f in fields:
+                if f not in vals:
+                    if f in cls.field_defaults:
+                        vals[f] = self.eval_in_module(cls.module, cls.field_defaults[f])
+                    else:
+                        raise PyRaise(self.make_exc("TypeError", f"{cls.name}() missing argument {f}"))
+            if len(args) > len(fields):
+                raise PyRaise(self.make_exc("TypeError", f"{cls.name}() takes {len(fields)} arguments"))
+            obj.attrs.update(vals)
+            obj.attrs["_fields"] = tuple(fields)
+            return obj
         init = cls.lookup(self, "__init__")
         if init is not None:
             self.call(init, [obj] + list(args), kwargs)
@@ -1506,6 +1531,8 @@ class Interp:
             r = h(self, o, k)
             if r is not NotImplemented:
                 return r
+        if isinstance(o, Obj) and "_fields" in o.attrs and isinstance(k, int):
+            return o.attrs[o.attrs["_fields"][k]]
         if isinstance(o, Obj) and isinstance(o.cls, RepoClass):
             gi = o.cls.lookup(self, "__getitem__")
             if gi is not None:
@@ -1649,6 +1676,8 @@ class Interp:
             r = h(self, it)
             if r is not NotImplemented:
                 return iter(r)
+        if isinstance(it, Obj) and "_fields" in it.attrs:
+            return iter([it.attrs[f] for f in it.attrs["_fields"]])
         if isinstance(it, Obj) and isinstance(it.cls, RepoClass):
             m = it.cls.lookup(self, "__iter__")
             if m is not None:
